@@ -311,6 +311,37 @@ def r_no_foreign_calls(r, prog):
     r.floor(1)
 
 
+def r_reply_consumed_completely(r, prog):
+    """A reply is the two sequences and nothing else: after decoding them the decoder must be at the end of the payload - `remaining() != 0`
+    returns an error before anything from the reply is used (messages printed, files written). Bytes after the second sequence mean the
+    generator printed something that is not a reply, or crashed half-way; a prefix that happens to decode is not to be trusted."""
+    f = prog.fn('slicec_bin::handle_generator_response')
+    decs = [c for c in f.calls() if c.name() == 'decode' and not f.blocks[c.bb].get('cleanup')]
+    uses = [c for c in f.calls() if c.name() in ('write_generated_file', '_print', 'println', 'print') and not f.blocks[c.bb].get('cleanup')]
+    if len(decs) < 2 or not uses:
+        raise AnchorMissing('the two decode calls / the uses of the reply in handle_generator_response')
+    ok = False
+    shown = []
+    for b, p_, ts, fs in bool_branches(f):
+        if p_ is None:
+            continue
+        v = vexpr(f, {'cp': p_})
+        m = re.match(r'^(Ne|Eq|Gt|Lt)\((.*)\)$', v)
+        if not m or 'remaining(' not in v or not re.search(r'(^|,)0(,|$)', m.group(2)):
+            continue
+        shown.append(v)
+        clean = fs if m.group(1) in ('Ne', 'Gt', 'Lt') else ts      # the edge on which nothing remains
+        dirty = ts if clean == fs else fs
+        errs = [a['bb'] for a in aggregates(prog, 'core::result::Result', 'Err') if a['fn'] is f and a['lhs']['l'] == 0 and not f.blocks[a['bb']].get('cleanup')]
+        if all(f.dominates(d.bb, b) for d in decs) and all(f.edge_dominates(b, clean, u.bb) for u in uses) and errs and must_pass(f, dirty, f.return_blocks(), errs):
+            ok = True
+    if ok:
+        r.ok('nothing of a reply is used unless the decoder is at the end of the payload after the two sequences (anything left over is an error)')
+    else:
+        r.finding('reply-not-consumed-completely', f.span, 'handle_generator_response uses the decoded reply without checking that nothing remains after the two sequences (%s): a reply followed by stray output - a crash message, a second reply - is accepted and its files are written' % (shown or 'no test of remaining()'))
+    r.floor(1)
+
+
 def run(ctx):
     prog = ctx.prog
     ctx.run_rule('C18.1a', 'T3', 'every generator failure is converted into an Error::IO naming the generator and extended into the diagnostics', r_converter_names_generator, prog)
@@ -327,6 +358,7 @@ def run(ctx):
     ctx.run_rule('C18.3c', 'T3', 'presence flags of reply fields are decoded as strict bools', r_reply_flags_are_strict_bools, prog)
     ctx.run_rule('C18.7', 'T1', 'no foreign function is called (SIGPIPE stays ignored: a generator that closes stdin early is a reported write error)', r_no_foreign_calls, prog)
     ctx.run_rule('C18.3d', 'T2', 'a length announced by a reply never reaches an allocation unchecked (a reply that announces 2^62 bytes is an error naming the generator, not an abort)', _codec.r_announced_sizes, prog)
+    ctx.run_rule('C18.3e', 'T2', 'a reply is the two sequences and nothing else: left-over bytes are an error before anything is used', r_reply_consumed_completely, prog)
     ctx.run_rule('C18.3', 'T2', 'only a fully decoded reply from a clean exit is trusted; generators are independent', r_only_decoded_reply_trusted, prog)
     ctx.run_rule('C18.4', 'T2', 'compare before write, on the very path that is written', r_compare_before_write, prog)
     ctx.run_rule('C18.5', 'T3', 'all generators are spawned before any is awaited', r_spawn_all_then_wait, prog)
